@@ -353,6 +353,15 @@ def machine_check(rep, configs, pid, variants=(0,), simulate=None):
             raise Machinery("no behaviours from " + name)
         n = run_behaviours(rep, algopy, res.records, pid, name, variants=variants)
         total += n
+        counts = {}
+        for r in res.records:
+            if r["h"]:
+                e = r["h"][-1]
+                k = e["a"] + (":" + e["op"] if "op" in e else "")
+                counts[k] = counts.get(k, 0) + 1
+        rep.parts[name]["action_counts"] = counts       # vacuity guard: every explored state is reached by exactly one last action
+        if not counts:
+            raise Machinery("vacuous configuration %s: no action was taken" % name)
         big = max(res.records, key=lambda r: len(r["h"]))
         rep.sample({"config": name, "behaviour": big["h"]}, maxn=5)
     return total
